@@ -103,6 +103,31 @@ def obs_value(e, key, desc):
                lambda i, t=t, v=v: ['%d:%s' % (i, hexb(t, v))], key + '|value', desc or txt)
 
 
+def constify(e):
+    """The same expression over literal constants (typed by a cast where the literal alone would have another type)."""
+    if e[0] == 'leaf':
+        t, v = e[2], e[3]
+        txt = lit(t, v) if t in ('i32', 'u32', 'i64', 'u64') else '((%s)%s)' % (cname(t), lit(t, v))
+        return leaf(txt, t, v)
+    return tuple(constify(x) if isinstance(x, tuple) else x for x in e)
+
+
+def obs_const(e, key):
+    """The expression as an integer constant expression: static initializer, enumerator / array bound where it fits."""
+    try:
+        t, v = ev(e)
+    except Undefined:
+        return []
+    txt = render(constify(e))
+    out = [Obs(lambda i, txt=txt: '{ static typeof(%s) r = %s; OUT(%d, &r, sizeof r); }' % (txt, txt, i),
+               lambda i, t=t, v=v: ['%d:%s' % (i, hexb(t, v))], key + '|static-init', 'static initializer ' + txt)]
+    if 0 <= v < 60000:
+        out.append(Obs(lambda i, txt=txt: '{ char a[(%s) + 1]; OUTV(%d, sizeof a); }' % (txt, i), lambda i, v=v: ['%d=%d' % (i, v + 1)], key + '|array-bound', 'array bound ' + txt))
+    if -(1 << 31) <= v < (1 << 31):
+        out.append(Obs(lambda i, txt=txt: '{ enum { EC%d = %s }; OUTV(%d, EC%d); }' % (i, txt, i, i), lambda i, v=v: ['%d=%d' % (i, v)], key + '|enumerator', 'enumerator ' + txt))
+    return out
+
+
 def obs_sign(e, key):
     t = typeof(e)
     txt = render(e)
@@ -137,6 +162,9 @@ def gen_grid(ctx, V, rng, npairs):
                 # the same expression in other contexts (one or two pairs per cell)
                 for (e, _) in pairs[:2]:
                     obs += contexts(e, op, tl, tr, rng)
+                # ... and folded by the compiler (operands are literals)
+                for (e, _) in pairs[:3]:
+                    obs += obs_const(e, 'C01|const|%s|%s|%s' % (op, tl, tr))
     for op in UNOPS:
         for t in ALL:
             key = 'C01|init|u%s|%s|-' % (op, t)
